@@ -1,56 +1,21 @@
--- GENERATED by nvlib/extract.py from the repository working tree; do not edit.
--- source constants / sizes / flag bits used by the C18 model and theorems
-namespace NV.Gen.C18
+/-
+C18 — the source statements the model was written from (frozen copy).  `NV/Gen/C18.lean` carries the same regions as
+they are in the source NOW (`src…`, regenerated on every run by props/c18.py `source_statements`); the obligation
+`source_statements_agree` compares them, so an edited line in one of these regions breaks an obligation even where the
+model mirrors the statement by hand (lexer arithmetic, pass 2, bounds check of find_line, frame walk of get_svalue_trace,
+the mapping of mudlib_error_handler, push_control_stack, program_file_id, __INIT placement).
+-/
+import NV.Gen.C18
 
-/-- C: `A_PROGRAM` -/
-def aProgram : Nat := 0
-/-- C: `A_INITIALIZER` -/
-def aInitializer : Nat := 20
-/-- C: `FRAME_FUNCTION` -/
-def frameFunction : Nat := 0
-/-- C: `FRAME_FUNP` -/
-def frameFunp : Nat := 1
-/-- C: `FRAME_CATCH` -/
-def frameCatch : Nat := 2
-/-- C: `FRAME_FAKE` -/
-def frameFake : Nat := 3
-/-- C: `FRAME_MASK` -/
-def frameMask : Nat := 3
-/-- C: `UCHAR_MAX` -/
-def ucharMax : Nat := 255
-/-- C: `8*sizeof(short)` -/
-def shortBits : Nat := 16
-/-- C: `8*sizeof(((program_t*)0)->program_size)` -/
-def progSizeBits : Nat := 16
-/-- C: `8*sizeof(((parse_node_t*)0)->line)` -/
-def nodeLineBits : Nat := 16
-/-- C: `8*sizeof(*((program_t*)0)->file_info)` -/
-def fileInfoBits : Nat := 16
-/-- C: `8*sizeof(*((program_t*)0)->line_info)` -/
-def lineInfoLenBits : Nat := 8
-/-- C: `A_INIT_LINES` -/
-def aInitLines : Nat := 24
-/-- C (src/apply.c apply_low, cache HIT): `csp->fr.table_index = entry->index;` — `ei` = function-table index kept in the
-    cache entry, `ri` = the function's runtime index -/
-def hitIndex (ei ri : Nat) : Nat := ei
-/-- C (src/apply.c apply_low, cache MISS): `csp->fr.table_index = index;` -/
-def missIndex (ei ri : Nat) : Nat := ei
-/-- C (lib/lpc/program.c, first pass of translate_absolute_line): `while (line_tmp > *p1)` — does the scan go on to the next
-    segment when `a` lines are left and the segment has `b` lines? -/
-def pass1Continues (a : Int) (b : Int) : Bool := decide (a > b)
-/-- C (src/simulate.c, find_line): `while (offset > *lns)` -/
-def scanContinues (a : Int) (b : Int) : Bool := decide (a > b)
-/-- C (lib/lpc/program/icode.c, switch_to_line): `while (sz > 255)`, the length written for a full run and the decrement -/
-def splitOp : String := ">"
-def splitBound : Nat := 255
-def splitLen : Nat := 255
-def splitDec : Nat := 255
+namespace NV.C18
 
-/-! the statements the model was written from, as they are in the source now -/
-def srcIncludeDirective : List String := [
+open NV.Gen.C18
+
+def expIncludeDirective : List String := [
   "current_line++",
   "handle_include (arg, 0)"]
-def srcHandleInclude : List String := [
+
+def expHandleInclude : List String := [
   "is->line = current_line",
   "is->file_id = current_file_id",
   "current_line--",
@@ -59,22 +24,27 @@ def srcHandleInclude : List String := [
   "current_line_saved = 0",
   "current_line = 1",
   "current_file_id = add_program_file (buf, 0)"]
-def srcIncludePop : List String := [
+
+def expIncludePop : List String := [
   "save_file_info (current_file_id, current_line - current_line_saved)",
   "current_line_saved = p->line - 1",
   "current_line_base += current_line - current_line_saved",
   "current_file_id = p->file_id",
   "current_line = p->line"]
-def srcFinalProgram : List String := [
+
+def expFinalProgram : List String := [
   "save_file_info (current_file_id, current_line - current_line_saved)",
   "switch_to_line (-1)"]
-def srcNodeLine : List String := [
+
+def expNodeLine : List String := [
   "next_node->line = (short)(current_line_base + current_line)"]
-def srcInitParser : List String := [
+
+def expInitParser : List String := [
   "line_being_generated = 0",
   "last_size_generated = 0",
   "init_line_being_generated = 0"]
-def srcSwitchToLine : List String := [
+
+def expSwitchToLine : List String := [
   "static void switch_to_line (int line) {",
   "ptrdiff_t sz = CURRENT_PROGRAM_SIZE - last_size_generated",
   "short s",
@@ -101,10 +71,12 @@ def srcSwitchToLine : List String := [
   "*p++ = (unsigned char)sz",
   "STORE_SHORT (p, s)",
   "line_being_generated = line"]
-def srcGenerateNodeLine : List String := [
+
+def expGenerateNodeLine : List String := [
   "if (expr->line && expr->line != (current_block == A_INITIALIZER ? init_line_being_generated : line_being_generated))",
   "switch_to_line (expr->line)"]
-def srcPlaceInit : List String := [
+
+def expPlaceInit : List String := [
   "i_generate___INIT ()",
   "size_t base = mem_block[A_PROGRAM].current_size",
   "size_t i, n = mem_block[A_INIT_LINES].current_size / sizeof (init_line_t)",
@@ -115,12 +87,14 @@ def srcPlaceInit : List String := [
   "prog_code = mem_block[A_PROGRAM].block + base + il->offset",
   "switch_to_line (il->line)",
   "prog_code = mem_block[A_PROGRAM].block + mem_block[A_PROGRAM].current_size"]
-def srcSaveFileInfo : List String := [
+
+def expSaveFileInfo : List String := [
   "short fi[2]",
   "fi[0] = (short)lines",
   "fi[1] = (short)file_id",
   "add_to_mem_block (A_FILE_INFO"]
-def srcProgramFileId : List String := [
+
+def expProgramFileId : List String := [
   "static int program_file_id (const char *name, int top) {",
   "int file_id",
   "if (!mem_block[A_STRINGS].block)",
@@ -134,7 +108,8 @@ def srcProgramFileId : List String := [
   "free_prog_string (file_id - 1)",
   "return store_prog_string_again (name) + 1",
   "return file_id"]
-def srcTranslate : List String := [
+
+def expTranslate : List String := [
   "int translate_absolute_line (int abs_line, unsigned short *file_info, size_t block_size, int *ret_file, int *ret_line) {",
   "unsigned short *p1, *p2, *end = file_info + (block_size / sizeof(unsigned short))",
   "int file",
@@ -154,7 +129,8 @@ def srcTranslate : List String := [
   "*ret_line = line_tmp",
   "*ret_file = file",
   "return 0"]
-def srcFindLine : List String := [
+
+def expFindLine : List String := [
   "static int find_line (const char *p, const program_t * progp, char **ret_file, int *ret_line) {",
   "int offset",
   "unsigned char *lns",
@@ -181,7 +157,8 @@ def srcFindLine : List String := [
   "*ret_file = progp->strings[file_idx - 1]",
   "return 0",
   "return 4"]
-def srcTraceFrames : List String := [
+
+def expTraceFrames : List String := [
   "v = allocate_empty_array ((csp - &control_stack[0]) + 1)",
   "for (p = &control_stack[0]; p < csp; p++)",
   "switch (p[0].framekind & FRAME_MASK)",
@@ -206,7 +183,8 @@ def srcTraceFrames : List String := [
   "get_line_number_info (&file, &line)",
   "add_mapping_string (m, \"file\", file)",
   "add_mapping_pair (m, \"line\", line)"]
-def srcErrorMapping : List String := [
+
+def expErrorMapping : List String := [
   "add_mapping_string (m, \"error\", err)",
   "if (current_prog)",
   "add_mapping_string (m, \"program\", current_prog->name)",
@@ -216,7 +194,8 @@ def srcErrorMapping : List String := [
   "get_line_number_info (&file, &line)",
   "add_mapping_string (m, \"file\", file)",
   "add_mapping_pair (m, \"line\", line)"]
-def srcPushControl : List String := [
+
+def expPushControl : List String := [
   "if (csp == &control_stack[CONFIG_INT (__MAX_CALL_DEPTH__) - 1])",
   "csp++",
   "csp->caller_type = caller_type",
@@ -227,4 +206,24 @@ def srcPushControl : List String := [
   "csp->prog = current_prog",
   "csp->pc = pc"]
 
-end NV.Gen.C18
+/-- **source_statements_agree**: every hand-modelled region of the anchor code still reads as it did when the model was written -/
+theorem source_statements_agree :
+    srcIncludeDirective = expIncludeDirective ∧
+    srcHandleInclude = expHandleInclude ∧
+    srcIncludePop = expIncludePop ∧
+    srcFinalProgram = expFinalProgram ∧
+    srcNodeLine = expNodeLine ∧
+    srcInitParser = expInitParser ∧
+    srcSwitchToLine = expSwitchToLine ∧
+    srcGenerateNodeLine = expGenerateNodeLine ∧
+    srcPlaceInit = expPlaceInit ∧
+    srcSaveFileInfo = expSaveFileInfo ∧
+    srcProgramFileId = expProgramFileId ∧
+    srcTranslate = expTranslate ∧
+    srcFindLine = expFindLine ∧
+    srcTraceFrames = expTraceFrames ∧
+    srcErrorMapping = expErrorMapping ∧
+    srcPushControl = expPushControl := by
+  refine ⟨?_, ?_, ?_, ?_, ?_, ?_, ?_, ?_, ?_, ?_, ?_, ?_, ?_, ?_, ?_, ?_⟩ <;> rfl
+
+end NV.C18
